@@ -210,8 +210,13 @@ def run(prog, tier) -> Result:
             c.new_type("D", has_ref=True, has_quantum=False, money=False)
             c.st.type_defs["D"] = cls_definition(c)
             u1, u2 = c.unit("u1", "T1"), c.unit("u2", "T2")
-            args = {"matching": [u1, u2], "swapped": [u2, u1], "arity": [u1], "non-unit": [u1, c.num("k", "int")]}[kind]
+            args = {"matching": [u1, u2], "swapped": [u2, u1], "arity": [u1], "non-unit": [u1, c.num("k", "int")],
+                    "symbol empty": [u1, u2], "symbol not str": [u1, u2], "matching-nosym": [u1, u2]}[kind]
             kw = {"symbol": StrV(None, "symbol")} if kind != "matching-nosym" else {}
+            if kind == "symbol empty":
+                kw = {"symbol": StrV("")}
+            if kind == "symbol not str":
+                kw = {"symbol": c.num("k", "int")}
             return I.call_function(du, [c.cls("D")] + args, kw)
         return body
     run_entry(prog, res, "R15.5", "QuantityMeta.derive_unit_from", "matching base units", du_body("matching"),
@@ -223,6 +228,15 @@ def run(prog, tier) -> Result:
               reject(["ValueError"]))
     run_entry(prog, res, "R15.5", "QuantityMeta.derive_unit_from", "non-unit argument", du_body("non-unit"),
               reject(["TypeError"]))
+    run_entry(prog, res, "R15.5", "QuantityMeta.derive_unit_from", "symbol empty", du_body("symbol empty"),
+              reject(["ValueError"]))
+    run_entry(prog, res, "R15.5", "QuantityMeta.derive_unit_from", "symbol not str", du_body("symbol not str"),
+              reject(["TypeError"]))
+    run_entry(prog, res, "R15.5", "QuantityMeta.derive_unit_from", "matching base units, generated symbol",
+              du_body("matching-nosym"),
+              lambda o: None if o.kind == "raise" and o.exc.name in ("ValueError",) and not persistent_writes(o.state)
+              else judge_unit_registered(o, cls_tid="D", symbol_tag=None,
+                                         want_def_mag=lambda o: RF.atom(("mu", "u1")) / RF.atom(("mu", "u2"))))
 
     def du_base(I, c):
         base_types(c)
